@@ -384,8 +384,8 @@ static int upipe_multicat_sink_control(struct upipe *upipe,
             uint64_t sync_period = va_arg(args, uint64_t);
             upipe_multicat_sink->sync_period = sync_period;
             if (upipe_multicat_sink->fsink != NULL)
-                return upipe_control_va(upipe_multicat_sink->fsink,
-                                        command, args);
+                return upipe_fsink_set_sync_period(upipe_multicat_sink->fsink,
+                                                   sync_period);
             return UBASE_ERR_NONE;
         }
         case UPIPE_FSINK_GET_SYNC_PERIOD: {
